@@ -427,7 +427,7 @@ class Bundle:
     def __init__(self, e, kinds, n, bad_len_arg=None, runs=False, mvar=0, blocky=False):
         self.e, self.kinds, self.n, self.runs, self.mvar = e, kinds, n, runs, mvar
         self.protos = []
-        divlike = any(s in e.name for s in ("div", "mod", "Div", "Mod"))
+        divlike = self.divlike = any(s in e.name for s in ("div", "mod", "Div", "Mod"))
         m = 2 * n + 3
         self.mask, self.sel = mask_for(n, m, blocky)
         ai = 0
@@ -480,11 +480,11 @@ class Bundle:
             if p[0] == "arr" and len(p[1]) == self.n:
                 et = elem_type_of_array(self.e.args[k])
                 for i in range(self.n):
-                    p[1][i] = make_scalar(et, (i + 2) // 5, k, k > 0)
+                    p[1][i] = make_scalar(et, (i + 2) // 5, k, k > 0 or self.divlike)
             elif p[0] == "marr" and len(p) == 4:
                 et = elem_type_of_array(self.e.args[k])
                 for i, j in enumerate(p[3]):
-                    p[1][j] = make_scalar(et, (i + 2) // 5, k, k > 0)
+                    p[1][j] = make_scalar(et, (i + 2) // 5, k, k > 0 or self.divlike)
 
     def instantiate(self):
         args, keep = [], []
